@@ -84,7 +84,9 @@ def _get_code_from_file(*args, hy_src_check=lambda x: x.endswith(".hy")):
 
     if hy.compat.PY3_15:
         fname, module = args
-    elif hy.compat.PY3_12:
+    elif len(args) == 1:
+        # Python 3.12.6 and later (3.12.0 through 3.12.5 still
+        # pass `run_name` first).
         fname, = args
     else:
         run_name, fname = args
